@@ -794,6 +794,25 @@ def skeleton(spec, seen=None, depth=0):
 class ValueGen:
     def __init__(self, rng, big_ints=True, max_len=4, budget=6):
         self.rng, self.big_ints, self.max_len, self.budget = rng, big_ints, max_len, budget
+        self.last = {}  # last aware datetime/time handed out: source of "same instant, other offset" twins
+
+    def _twin(self, name):
+        """With some probability: a value EQUAL to the previous datetime/time (same instant) but at another UTC offset -
+        equal and hash-equal, yet a different value under the properties (offset must survive)."""
+        prev = self.last.get(name)
+        if prev is None or self.rng.random() > 0.3:
+            return None
+        off = datetime.timezone(datetime.timedelta(minutes=self.rng.randrange(-720, 721)))
+        try:
+            if name == "datetime":
+                return prev.astimezone(off)
+            base = datetime.datetime(2000, 1, 2, prev.hour, prev.minute, prev.second, prev.microsecond, tzinfo=prev.tzinfo)
+            moved = base.astimezone(off)
+            if moved.date() == base.date():
+                return moved.timetz()
+        except (OverflowError, ValueError):
+            pass
+        return None
 
     def value(self, spec, budget=None):
         rng = self.rng
@@ -803,6 +822,12 @@ class ValueGen:
             name = spec.info["name"]
             if name == "int":
                 return gen_int(rng, big=self.big_ints)
+            if name in ("datetime", "time"):
+                v = self._twin(name)
+                if v is None:
+                    v = SCALARS[name][2](rng)
+                self.last[name] = v
+                return v
             return SCALARS[name][2](rng)
         if k == "literal":
             return rng.choice(spec.info["members"])
